@@ -223,21 +223,66 @@ Section WithSerialize.
         end
     end.
 
-  (* evaluate the dict literal in the method's environment; None = a called name is not callable *)
+  Definition is_none (v : pyval) : bool := match v with PNone => true | _ => false end.
+  Definition is_unset (v : pyval) : bool := match v with PUnset => true | _ => false end.
+
+  (* `x is UNSET` inside the method: UNSET is the module-level sentinel unless a PARAMETER is called UNSET,
+     which shadows it (then the test is an identity test against that argument) *)
+  Definition is_unset_test (env : list (string * pyval)) (x : string) (v : pyval) : bool :=
+    match assoc "UNSET" env with
+    | None => is_unset v
+    | Some u => String.eqb x "UNSET" || (is_unset v && is_unset u)
+    end.
+
+  (* evaluate an expression of the variables dict in the method's environment: value and the log of
+     serialize calls (argument of each call, in evaluation order).  None = Python raises (a called name is
+     shadowed by a parameter / iterating a non-list). *)
+  Fixpoint eval_se (env : list (string * pyval)) (e : sexpr) : option (pyval * list (string * pyval)) :=
+    match e with
+    | EVar x => option_map (fun v => (v, [])) (assoc x env)
+    | ECall f x =>
+        match assoc f env with
+        | Some _ => None
+        | None => option_map (fun v => (ser f v, [(f, v)])) (assoc x env)
+        end
+    | EGuard top x body =>
+        match assoc x env with
+        | None => None
+        | Some v => if is_none v || (top && is_unset_test env x v) then Some (v, []) else eval_se env body
+        end
+    | EComp item elt x =>
+        match assoc x env with
+        | Some (PList l) =>
+            option_map (fun rs => (PList (map fst rs), List.concat (map snd rs)))
+                       (map_opt (fun a => eval_se ((item, a) :: env) elt) l)
+        | _ => None
+        end
+    end.
+
   Fixpoint eval_dict (env : list (string * pyval)) (d : list (string * dictval))
     : option (list (string * pyval)) :=
     match d with
     | [] => Some []
     | (k, dv) :: r =>
-        let here :=
-          match dv with
-          | DName p => assoc p env
-          | DCall f p => match assoc f env with
-                         | Some _ => None
-                         | None => option_map (ser f) (assoc p env)
-                         end
-          end in
-        match here, eval_dict env r with Some v, Some o => Some ((k, v) :: o) | _, _ => None end
+        match eval_se env dv, eval_dict env r with
+        | Some (v, _), Some o => Some ((k, v) :: o) | _, _ => None end
+    end.
+
+  (* what the expression is meant to compute: serialize applied to every non-None occurrence of the scalar
+     in an argument of type t (and the log of those calls); None / UNSET (argument itself) untouched *)
+  Fixpoint ser_arg (f : string) (t : gtype) (nl top : bool) (v : pyval)
+    : option (pyval * list (string * pyval)) :=
+    match t with
+    | TNonNull t' => ser_arg f t' false top v
+    | TNamed _ =>
+        if nl && (is_none v || (top && is_unset v)) then Some (v, []) else Some (ser f v, [(f, v)])
+    | TList t' =>
+        if nl && (is_none v || (top && is_unset v)) then Some (v, []) else
+        match v with
+        | PList l => option_map (fun rs => (PList (map fst rs), List.concat (map snd rs)))
+                                (map_opt (ser_arg f t' true false) l)
+        | _ => None
+        end
     end.
 
   Definition query_text : pyval := PStr "<operation string>".
@@ -428,15 +473,12 @@ Section WithSerialize.
                       | DInput fs => forallb (fun f => ok_ty true (if_type f)) fs
                       | _ => true end) S.
 
-  (* F10: a variable whose named type is a custom scalar with serialize, unless the variable is T! *)
+  (* the serialize function used for a variable, if its named type is a scalar configured with one
+     (finding F10 - serialize on the whole argument - was fixed by /repo d163d56; its guard is gone) *)
   Definition var_ser (S : schema) (t : gtype) : option string :=
     match lookup_type S (named_of t) with Some (DCustom c) => cfg_ser c | _ => None end.
 
-  Definition g_f10 (S : schema) (t : gtype) : bool :=
-    match var_ser S t with
-    | None => true
-    | Some _ => match t with TNonNull (TNamed _) => true | _ => false end
-    end.
+  Definition is_item_name (f : string) : bool := String.prefix "_item" f.
 
   (* F7 / local clashes: parameter names that break the method (beyond sig_ok) *)
   Definition names_ok (S : schema) (snake : bool) (vs : list vardef) : bool :=
@@ -444,8 +486,10 @@ Section WithSerialize.
     forallb py_ok_name py && nodup_str py &&
     negb (mem_str "gql" py) &&
     negb (mem_str "query" py && mem_str "_query" py) &&
+    negb (mem_str "UNSET" py) &&
     forallb (fun v => match var_ser S (v_type v) with
                       | Some f => negb (mem_str f py) && negb (String.eqb f "query") && negb (String.eqb f "_query")
+                                  && negb (is_item_name f) && negb (String.eqb f "UNSET")
                       | None => true end) vs.
 End WithSerialize.
 
@@ -514,7 +558,7 @@ Definition run_args (e : sexp) : sexp :=
       | Some snake, Some Sc, Some vds =>
           match generate Sc snake vds with
           | Some g => L [A "ok"; sGenerated g; sB (sig_ok g); sB (names_ok Sc snake vds);
-                         sB (inputs_ok Sc snake); sB (g_f21 Sc); L (map (fun v => sB (g_f10 Sc (v_type v))) vds)]
+                         sB (inputs_ok Sc snake); sB (g_f21 Sc)]
           | None => A "gen-error" end
       | _, _, _ => sErr "gen: decode" end
   | L [A "call"; sn; sch; vs; kw] =>
